@@ -5,6 +5,7 @@ import (
 	"context"
 	"fmt"
 	"strings"
+	"time"
 
 	sse "github.com/tmaxmax/go-sse"
 	"github.com/tmaxmax/go-sse/vrt"
@@ -101,6 +102,98 @@ func body(p Params) func() {
 	}
 }
 
+// resumeFailBody: a subscriber resumes from the first of three buffered events through a REAL replayer and its
+// writer fails during the replay (at its failAt-th call); a healthy subscriber resumes at the same time.
+func resumeFailBody(valid, auto bool, failAt int) func() {
+	return func() {
+		w := &world{JL: &jh.JoeLog{}}
+		vrt.SetUser(w)
+		var inner sse.Replayer
+		if valid {
+			v, _ := sse.NewValidReplayer(time.Hour, auto)
+			base := time.Date(2030, 1, 1, 0, 0, 0, 0, time.UTC)
+			v.Now = func() time.Time { return base }
+			inner = v
+		} else {
+			f, _ := sse.NewFiniteReplayer(4, auto)
+			inner = f
+		}
+		w.R = &jh.Replayer{JL: w.JL, Inner: inner}
+		j := &sse.Joe{Replayer: w.R}
+		jh.PreInitFor(j, auto)
+		ids := []string{"e0", "e1", "e2", "e3"}
+		if auto {
+			ids = []string{"0", "1", "2", "3"}
+		}
+		for k := 0; k < 3; k++ {
+			r := &jo.Msg{Tag: fmt.Sprintf("h%d", k), Topics: []string{"a"}, Seq: k}
+			w.Msgs = append(w.Msgs, r)
+			m := jh.Msg(r.Tag, "")
+			if !auto {
+				m = jh.Msg(r.Tag, ids[k])
+			}
+			r.Err = j.Publish(m, r.Topics)
+			r.Returned = true
+		}
+		var subs []vrt.Handle
+		for i := 0; i < 2; i++ {
+			name := fmt.Sprintf("S%d", i+1)
+			ctx := vrt.NewCtx(name)
+			ret := vrt.NewShared(name+".returned", 0)
+			wr := &jh.Writer{Name: fmt.Sprintf("W%d", i+1), Ctx: ctx, JL: w.JL, Returned: ret}
+			if i == 0 {
+				wr.FailAt = failAt
+			}
+			rec := &jo.Sub{W: wr, Topics: []string{"a"}, LastID: ids[0], HasLastID: true}
+			w.Subs = append(w.Subs, rec)
+			subs = append(subs, vrt.GoNamed(name, func() {
+				err := j.Subscribe(ctx, sse.Subscription{Client: wr, Topics: rec.Topics, LastEventID: sse.ID(ids[0])})
+				ret.Poke(1)
+				rec.Returned, rec.Err = true, err
+			}))
+		}
+		live := &jo.Msg{Tag: "p1", Topics: []string{"a"}, Pub: 1}
+		w.Msgs = append(w.Msgs, live)
+		pub := vrt.GoNamed("P", func() {
+			m := jh.Msg("p1", "")
+			if !auto {
+				m = jh.Msg("p1", ids[3])
+			}
+			live.Err = j.Publish(m, live.Topics)
+			live.Returned = true
+		})
+		vrt.Join(pub)
+		w.Shut = j.Shutdown(context.Background())
+		vrt.Join(subs...)
+	}
+}
+
+func resumeCheck(r *vrt.Result) string {
+	if r.Outcome != vrt.Done {
+		return r.Outcome + ": " + r.Msg
+	}
+	w := r.User.(*world)
+	if v := jo.Check(&jo.Spec{JL: w.JL, HasReplayer: true, Subs: w.Subs, Msgs: w.Msgs, Ignore: map[string]bool{"init": true}}); v != "" {
+		return v
+	}
+	// the healthy subscriber got the two missed events by replay
+	for _, s := range w.Subs[1:] {
+		n := 0
+		for _, e := range s.W.Events {
+			if strings.HasPrefix(e, "S:h") {
+				n++
+			}
+		}
+		if len(s.W.Events) == 0 && s.Err == sse.ErrProviderClosed {
+			continue // the final Shutdown came first: this subscription never reached Joe
+		}
+		if n != 2 && s.W.FirstErr == nil {
+			return fmt.Sprintf("%s resumed from the first buffered event but got %d of the 2 missed events while another subscriber's replay failed (calls %v)", s.W.Name, n, s.W.Events)
+		}
+	}
+	return ""
+}
+
 func check(r *vrt.Result) string {
 	if r.Outcome != vrt.Done {
 		return r.Outcome + ": " + r.Msg
@@ -195,6 +288,16 @@ func Scenarios(tier string) []run.Scenario {
 				continue
 			}
 			add(Params{FailSub: f, FailAt: 1, PutFailAt: sc.pa, PutKind: sc.pk, ReplayFailAt: sc.ra, ReplayKind: sc.rk, NMsg: 2, Racing: true})
+		}
+	}
+	// a failure during the replay through a real replayer
+	for _, valid := range []bool{false, true} {
+		for _, auto := range []bool{false, true} {
+			for at := 1; at <= 4; at++ {
+				v, a, f := valid, auto, at
+				out = append(out, run.Scenario{Name: fmt.Sprintf("resume-fails-valid%v-auto%v-call%d", v, a, f), Body: resumeFailBody(v, a, f), Check: resumeCheck, Sig: sig, Summary: summary,
+					Opts: vrt.Options{PreemptBound: -1, FaultBound: -1, OrderBound: -1, Prune: true}})
+			}
 		}
 	}
 	// a subscriber arriving after the replayer failed
